@@ -43,6 +43,16 @@ pub fn make_seed(i: u64, rng: &mut Rng) -> Option<Seed> {
         shape.aux = Some(AuxShape { cols: 1, rands: 1, lagrange: i % 16 == 0 });
     }
     shape.meta = if i % 7 == 0 { rng.bytes(3) } else { vec![] };
+    // every twelfth seed: every column constant, no auxiliary segment - every constraint evaluates to zero whatever
+    // the challenges are, so edits that re-seed the coin survive the out-of-domain check and reach the later stages
+    if i % 12 == 10 {
+        let w = shape.width();
+        shape.rules = (0..w).map(|c| Rule::Pow { d: 1, a: 1, b: 0, src: c, per: None }).collect();
+        shape.periodic.clear();
+        shape.aux = None;
+        shape.asserts = vec![ASpec { col: 0, kind: AKind::Single(0) }];
+        shape.exemptions = 1;
+    }
     let shape = Arc::new(shape);
     let mut options = random_options(rng, &shape, ext, 8);
     // every sixth seed asks for a single query without grinding: an edit that re-seeds the coin can
@@ -128,6 +138,17 @@ pub fn all_mutants(seed: &Seed, rng: &mut Rng, quick: bool) -> Vec<Mutant> {
         let mut p = seed.proof.clone();
         p.num_unique_queries = nq;
         sem.push(("num_unique_queries", p));
+    }
+    // the query count claimed by the options set to the size of the LDE domain and its neighbours
+    if let Some(f) = seed.map.fields.iter().find(|f| f.name == "context.options.num_queries") {
+        let lde = seed.inst.shape.n() * seed.inst.options.blowup_factor();
+        for v in [lde.saturating_sub(1), lde, lde + 1, lde / 2, 2 * lde] {
+            if (1..=255).contains(&v) {
+                let mut b = seed.bytes.clone();
+                b[f.off] = v as u8;
+                out.push(Mutant { class: "num_queries-vs-lde-domain-size".into(), bytes: b });
+            }
+        }
     }
     for nonce in [0u64, 1, u64::MAX] {
         let mut p = seed.proof.clone();
